@@ -1,6 +1,6 @@
-CONSTANTS Variant = "std"  MaxSum = 6  MaxIns = 3  MaxPays = 4  MaxFee = 2
+CONSTANTS Variant = "std"  MaxSum = 5  MaxIns = 3  MaxPays = 4  MaxFee = 1
           ScaleKs = {12}  ScaleRs = {0}
-          SrcPatterns = {"own"}  ToPatterns = {"same"}
+          SrcPatterns = {"shared"}  ToPatterns = {"same"}
           EmitScaled = FALSE
 SPECIFICATION RSpec
 INVARIANTS DoneIsBuild OutcomeOK
